@@ -44,9 +44,9 @@ Section Catalog.
           (set_cache K (set_db K s (aremove K keqb (st_db K s) p)) (cache_remove_phys K keqb (st_cache K s) p), [])
         else (s, [Refused name])
     | CRealtime cached =>
-        let u := st_ctr K s in
-        let s1 := register_leaf (register_leaf s (LUid RTL u) (PRecords u)) (LUid RTR u) (PRecords u) in
-        let s2 := set_luid_ctr K s1 (st_luid K s1) (S u) in
+        let u := st_ctr K s in                      (* uid = ascii_uid(8): fresh *)
+        let s0 := set_luid_ctr K s (st_luid K s) (S u) in
+        let s2 := register_leaf (register_leaf s0 (LUid RTL u) (PRecords u)) (LUid RTR u) (PRecords u) in
         if cached then
           (* _sql_to_splink_dataframe(cached_sql, ..., physical_name = __splink__realtime_compare_records_<uid>) *)
           let p := PL K (LUid RT u) in
